@@ -619,3 +619,75 @@ STANDIN = {r"run_evolve": _CR.EVOLVE_REPLAY, r"resimulation\.pairs|extract": _CR
 
 from . import calibreport as _CRc  # noqa: E402
 unit("C11", "calibration.ctor")(_CRc.calibration_ctor_unit)      # Calibration.__init__ keeps the seeds / settings it is given (0 included)
+
+
+# ---- the declared fit ranges become the range objects: FitRange2D/3D.from_sequence, to_fit_range ------------------------------------------
+SEQ_REPLAY = lambda w: {"code": """
+from pyxel.calibration.util import FitRange2D, FitRange3D, to_fit_range
+VIOLATED, DETAIL = False, 'declared [.., row start, row stop, col start, col stop] lists become exactly those slices'
+def sl(r): return tuple((s.start, s.stop, s.step) for s in r.to_slices())
+cases = [(FitRange2D.from_sequence, [1, 5, 2, 7], ((1, 5, None), (2, 7, None))), (FitRange2D.from_sequence, [0, 0, 0, 0], ((0, 0, None), (0, 0, None))),
+         (FitRange2D.from_sequence, [], ((None, None, None), (None, None, None))), (FitRange2D.from_sequence, None, ((None, None, None), (None, None, None))),
+         (FitRange3D.from_sequence, [3, 9, 1, 5, 2, 7], ((3, 9, None), (1, 5, None), (2, 7, None))), (FitRange3D.from_sequence, [1, 5, 2, 7], ((None, None, None), (1, 5, None), (2, 7, None))),
+         (FitRange3D.from_sequence, [], ((None, None, None),) * 3), (to_fit_range, [1, 5, 2, 7], ((1, 5, None), (2, 7, None))), (to_fit_range, [3, 9, 1, 5, 2, 7], ((3, 9, None), (1, 5, None), (2, 7, None))),
+         (to_fit_range, None, ((None, None, None), (None, None, None))), (to_fit_range, [], ((None, None, None), (None, None, None)))]
+for f, arg, want in cases:
+    got = sl(f(arg))
+    if got != want:
+        VIOLATED, DETAIL = True, f'{f.__qualname__}({arg}) -> slices {got}, expected {want}'; break
+if not VIOLATED:
+    for f, bad in ((FitRange2D.from_sequence, [1, 2, 3]), (FitRange2D.from_sequence, [1, 2, 3, 4, 5, 6]), (FitRange3D.from_sequence, [1, 2, 3, 4, 5]), (FitRange3D.from_sequence, [1] * 7), (to_fit_range, [1, 2, 3, 4, 5]), (to_fit_range, [1, 2])):
+        try:
+            f(bad); VIOLATED, DETAIL = True, f'{f.__qualname__}({bad}) accepted'; break
+        except ValueError:
+            pass
+""", "expect": "from_sequence / to_fit_range keep every bound at its own position; wrong lengths are refused"}
+
+
+@unit("C11", "ranges.from_sequence")
+def ranges_from_sequence(u: Unit):
+    """FitRange2D.from_sequence, FitRange3D.from_sequence and to_fit_range for lists of 0..7 SYMBOLIC integers (and None): 4 values are
+    (row start, row stop, col start, col stop), 6 values are (time start, time stop, row .., col ..), a 3-D range from 4 values has an
+    open time range, nothing declared is the open range; every other length is a ValueError. Bounded in the list length only (the
+    functions refuse every length but 0, 4, 6)."""
+    f2, f3, ft = u.fn(f"{UTIL}::FitRange2D.from_sequence"), u.fn(f"{UTIL}::FitRange3D.from_sequence"), u.fn(f"{UTIL}::to_fit_range")
+    c2, c3 = u.cls(f"{UTIL}::FitRange2D"), u.cls(f"{UTIL}::FitRange3D")
+    D = [z3.Int(f"declared{i}") for i in range(7)]
+
+    def expect(which, n):
+        """field -> (start, stop) terms or None (open); None result = ValueError expected"""
+        two = {4: {"row": (D[0], D[1]), "col": (D[2], D[3])}, 0: {"row": None, "col": None}}
+        three = {6: {"time": (D[0], D[1]), "row": (D[2], D[3]), "col": (D[4], D[5])}, 4: {"time": None, "row": (D[0], D[1]), "col": (D[2], D[3])}, 0: {"time": None, "row": None, "col": None}}
+        if which == "2D":
+            return ("FitRange2D", two[n]) if n in two else None
+        if which == "3D":
+            return ("FitRange3D", three[n]) if n in three else None
+        return ("FitRange2D", two[n]) if n in (0, 4) else ("FitRange3D", three[6]) if n == 6 else None
+    for which, fi, owner in (("2D", f2, c2), ("3D", f3, c3), ("any", ft, None)):
+        for n in [None] + list(range(8)):
+            def setup(ex, n=n, owner=owner):
+                arg = NONE if n is None else ex.st.alloc(HList([VInt(D[i]) for i in range(n)]))
+                return ([VClass(owner)] if owner is not None else []) + [arg], {}
+            tag = f"[{which},{'none' if n is None else n}]"
+            ps = u.paths(fi, setup, Cfg("real"), label=f"{fi.name}{tag}")
+            want = expect(which, 0 if n is None else n)
+            for p in ps:
+                if want is None:
+                    u.oblige(p, f"ranges.from_sequence.refused{tag}", p.kind == "raise" and p.exc_name() == "ValueError", {"length": n, "outcome": p.kind}, SEQ_REPLAY)
+                    continue
+                if p.kind != "return" or not isinstance(p.value, VRef) or not isinstance(p.st.cell(p.value), HObj):
+                    u.oblige(p, f"ranges.from_sequence.accepted{tag}", False, {"length": n, "exc": p.exc_name()}, SEQ_REPLAY)
+                    continue
+                o = p.st.cell(p.value)
+                cname, fields = want
+                goals = [zb(getattr(o.cls, "name", None) == cname and sorted(k for k in o.fields if not k.startswith("__")) == sorted(fields))]
+                for k, be in fields.items():
+                    s = o.fields.get(k)
+                    if not isinstance(s, VSlice):
+                        goals.append(z3.BoolVal(False))
+                    elif be is None:
+                        goals.append(zb(isinstance(s.lo, VNone) and isinstance(s.hi, VNone) and isinstance(s.step, VNone)))
+                    else:
+                        goals.append(z3.And(z_int(s.lo.v) == be[0], z_int(s.hi.v) == be[1], zb(isinstance(s.step, VNone))) if isinstance(s.lo, VInt) and isinstance(s.hi, VInt) else z3.BoolVal(False))
+                u.oblige(p, f"ranges.from_sequence.positions{tag}", z3.And(*goals), {"length": n}, SEQ_REPLAY)
+            u.cover(f"ranges.from_sequence.cover{tag}", ps, lambda p: True)
